@@ -55,10 +55,16 @@ MANIFEST = {
                   "less: error); C08_file_encode_sw (File.EncodeSW, progressive / EncModeBoxTree, of both decodings of any file that is a sequence of "
                   "boxes: in memory = the file, needs lenN file = File.Size() bytes; lazy = the file minus every mdat payload and needs only that much "
                   "- a writer of File.Size() bytes always suffices -; less room: error). "
+                  "C08_expected_samples_len + C08_lazy_writer_end_to_end (coq/c08/C08LwProofs.v; discharges what round 2 left as a hypothesis "
+                  "- C08_lazy_writer took ANY payload -): Fragment.AddSampleToTrack for samples a..b (lazyDataSize += uint64(size)), Encode of the "
+                  "prepared mdat, then File.CopySampleData(a..b) from either decoding, every work buffer / read schedule: the accumulated size IS the "
+                  "number of bytes copied (= sum of the table sizes of a..b), so header ++ copied bytes is a well-formed mdat box (16-byte header iff "
+                  "more than 2^32-9 payload bytes) whose payload is exactly the samples' bytes; hypotheses = those of C08_copy_samples, total < 2^63-16. "
                   "Only explored (search, not proved): below the top level (Info dump); File.Encode in EncModeSegment of a lazily decoded "
                   "fragmented file = the in-memory output minus the mdat payloads; the sample-reading API on lazily decoded fragments "
                   "(GetFullSamples must fail rather than panic or return other bytes, GetSampleInterval + ReadData/CopyData return the samples' "
-                  "bytes); the lazy writer end to end (written segment decodes to one fragment whose mdat payload is samples a..b); "
+                  "bytes); the moof / trun side of the lazy writer (written segment decodes to one fragment whose mdat payload is samples a..b - the "
+                  "mdat side is C08_lazy_writer_end_to_end); "
                   "multi-track interleaved files against the generator's ground truth; a sparse > 4 GiB file (co64 offsets around and above "
                   "2^32, 16-byte mdat header) through a position-synthesizing ReadSeeker - on the Coq side such files are inside the theorems' "
                   "scope (file length < 2^63) and the correspondence compares the (seek offset, bytes read) pairs with chunk_seg.",
@@ -95,7 +101,8 @@ def run(ctx):
         "model: coq/c08/C08Model.v is a hand transcription of mp4/mdat.go, mp4/box.go (DecodeHeader, EncodeHeaderWithSize, "
         "DecodeBox/DecodeBoxLazyMdat mdat case), mp4/file.go CopySampleData, io.ReadFull, io.CopyN; coq/c08/C08FragModel.v of mp4/file.go "
         "DecodeFile loop checks, AddChild, startSegmentIfNeeded, mediasegment.go / fragment.go AddChild; coq/c08/C08EncModel.v of File.Encode (children in order); "
-        "coq/c08/C08SwModel.v of MdatBox.EncodeSW, EncodeHeaderWithSizeSW, File.EncodeSW (children in order) and of bits.FixedSliceWriter.Write*",
+        "coq/c08/C08SwModel.v of MdatBox.EncodeSW, EncodeHeaderWithSizeSW, File.EncodeSW (children in order), of bits.FixedSliceWriter.Write* "
+        "and of the lazyDataSize accumulation of Fragment.AddSampleToTrack (mp4/fragment.go)",
         "non-mdat boxes: the values DecodeFile reads out of moov / sidx are recomputed by the harness with the same decoders and handed to the model",
         "the harness's io.ReadSeeker (harness/c08/main.go oRS) is the reader the model describes (rs_read)",
     ]
@@ -143,8 +150,8 @@ def run(ctx):
         key = (p[0], ctxf if p[0] != "F" else "", "\t".join(p[2:]))
         if any(x.startswith("o:") for x in p[2:]):
             distinct.add(key)
-    kinds = {k: sum(1 for l in lines if l.startswith(k + "\t")) for k in ("F", "R", "H", "S", "T", "W", "M", "G", "E", "P", "Q", "V")}
-    hyp = {"R": 0, "S": 0, "W": 0, "G": 0, "E": 0, "Q": 0, "V": 0}
+    kinds = {k: sum(1 for l in lines if l.startswith(k + "\t")) for k in ("F", "R", "H", "S", "T", "W", "M", "G", "E", "P", "Q", "V", "Z", "L")}
+    hyp = {"R": 0, "S": 0, "W": 0, "G": 0, "E": 0, "Q": 0, "V": 0, "L": 0}
     for l, r in zip(lines, res):
         if r.endswith(" H"):
             hyp[l[0]] = hyp.get(l[0], 0) + 1
@@ -157,7 +164,8 @@ def run(ctx):
                                                                            "C08_frag_tree_equal (G)": hyp["G"],
                                                                            "C08_file_encode (E)": hyp["E"],
                                                                            "C08_lazy_encode_sw (Q)": hyp["Q"],
-                                                                           "C08_file_encode_sw (V)": hyp["V"]},
+                                                                           "C08_file_encode_sw (V)": hyp["V"],
+                                                                           "C08_lazy_writer_end_to_end (L)": hyp["L"]},
                                    "panic_outcomes": sum(l.count("\tp") for l in lines),
                                    "error_outcomes": sum(l.count("\te") for l in lines)}
     rl = [l for l in lines if l.startswith("R\t")]
@@ -234,7 +242,10 @@ def run(ctx):
                        "+3, a random capacity and File.Size(); the driver evaluates the hypotheses AND the conclusions of C08_lazy_encode_sw / "
                        "C08_file_encode_sw on the implementation's answers. search also: EncodeSW(lazy mdat) = the original header with HeaderSize() / Size() "
                        "/ Size()+5 bytes of room and an error with one byte less; EncodeSW(in-memory mdat) = the box; for every decoded File (both modes, "
-                       "both fragmented encode modes) EncodeSW into a writer of Size() bytes = Encode" % (n + n // 4 + 1 + n // 2 + 1, exh))
+                       "both fragmented encode modes) EncodeSW into a writer of Size() bytes = Encode. Z = Fragment.AddSampleToTrack for up to 6 sample sizes "
+                       "(0 .. 2^32-1, totals on both sides of 2^32-9) then Encode of the fragment's mdat vs lazy_size_after / mdat_for_writing; L = the same "
+                       "for samples a..b of synthesized progressive files + CopySampleData from the lazy decoding, hypotheses and conclusion of "
+                       "C08_lazy_writer_end_to_end evaluated by the driver on the implementation's answers" % (n + n // 4 + 1 + n // 2 + 1, exh))
 
 
 def hook_search(ctx, exe):
